@@ -8,9 +8,10 @@ Geoms == [Point |-> {G("Point", Pt(1)), G("Point", Pt(4))},
           MultiPoint |-> {G("MultiPoint", Path(0, 1)), G("MultiPoint", <<>>)},            \* (a geometry without points is a record like any other)
           LineString |-> {G("LineString", Path(0, 2)), G("LineString", Path(1, 4))},
           MultiLineString |-> {G("MultiLineString", <<Path(0, 2)>>), G("MultiLineString", <<Path(0, 2), Path(2, 3)>>),
-                              G("MultiLineString", <<Path(1, 1), Path(2, 2), Path(4, 4)>>)},
+                              G("MultiLineString", <<Path(1, 1), Path(2, 2), Path(4, 4)>>),
+                              G("MultiLineString", <<Path(0, 2), <<>>, Path(2, 3)>>)},        \* (a part without points between two others)
           Polygon |-> {G("Polygon", <<Closed(0, 3)>>), G("Polygon", <<Path(1, 3)>>), G("Polygon", <<Closed(0, 4), Path(2, 3)>>),
-                      G("Polygon", <<Path(0, 4), Closed(1, 3), Path(3, 2)>>)},      \* (the last ring: two vertices, unclosed),
+                      G("Polygon", <<Path(0, 4), Closed(1, 3), Path(3, 2)>>), G("Polygon", <<Closed(0, 3), <<>>, Closed(2, 3)>>)},      \* (the last ring: two vertices, unclosed),
           Bounds |-> {G("Bounds", << <<2, 1>>, <<3, 6>> >>), G("Bounds", << <<4, 4>>, <<1, 3>> >>)}]          \* proper boxes: min < max on both axes
 Attrs == {[id |-> 0, name |-> 1, val |-> 1], [id |-> -1, name |-> 2, val |-> 2], [id |-> 2147483647, name |-> 3, val |-> 3],
           [id |-> -999999999, name |-> 4, val |-> 4], [id |-> 7, name |-> 2, val |-> 5],
